@@ -86,6 +86,10 @@ def build(race=False):
     cmd.append("./checks")
     t0 = time.time()
     p = subprocess.run(cmd, cwd=ROOT, env=env_for(), stdout=subprocess.PIPE, stderr=subprocess.STDOUT, text=True)
+    if alt and os.path.abspath(alt) != REPO:
+        for f in (modfile, modfile[:-4] + ".sum"):
+            if os.path.exists(f):
+                os.remove(f)
     if p.returncode != 0 or not os.path.exists(out):
         log("BUILD FAILED (%s):\n%s" % (" ".join(cmd), p.stdout[-4000:]))
         return None
